@@ -24,6 +24,7 @@ import (
 	"fmt"
 	"os"
 	"sort"
+	"strconv"
 	"strings"
 	"sync"
 	"time"
@@ -263,59 +264,52 @@ func (h *harness) sectionFull() {
 	}()
 	fail := func(what string, err error) { r.Fail("", fmt.Sprintf("full: %s: %v", what, err)) }
 	w := newWorld()
-	advPair := func(p pkgPair, rel string, bySource bool) []adv {
-		vn, fn, decoy := p.vulnBin, p.fixedBin, p.vulnSrc
-		if bySource {
-			vn, fn, decoy = p.vulnSrc, p.fixedSrc, p.vulnBin
-		}
-		return []adv{{pkg: vn, fixed: p.fixIn, id: "ADV-" + rel + "-vuln"}, {pkg: fn, fixed: p.fixIn, id: "ADV-" + rel + "-fixed"},
-			{pkg: decoy, fixed: p.fixIn, id: "ADV-" + rel + "-decoy-kind"}}
-	}
 	apkP, debP, ubP, pyP, rbP, jvP := h.genPair("apk"), h.genPair("deb"), h.genPair("deb"), h.genPair("sem"), h.genPair("sem"), h.genPair("sem")
 	// Maven coordinates group:artifact
 	jvP.vulnBin, jvP.fixedBin = "org.verif."+jvP.vulnSrc+":"+jvP.vulnBin, "org.verif."+jvP.fixedSrc+":"+jvP.fixedBin
 	aadv := map[string][]adv{}
 	for _, e := range h.fx.Dirs["alpine"] {
-		aadv[e.Release] = advPair(apkP, "alpine-"+e.Release, true)
+		aadv[e.Release] = advSet("alpine", apkP, "alpine-"+e.Release, true)
 	}
 	w.alpineWorld(aadv)
 	dadv := map[string][]adv{}
 	for _, rel := range debianWorldReleases {
-		dadv[rel.code] = advPair(debP, fmt.Sprintf("debian-%d", rel.major), true)
+		dadv[rel.code] = advSet("debian", debP, fmt.Sprintf("debian-%d", rel.major), true)
 	}
+	dadv[debianWorldReleases[0].code] = append(dadv[debianWorldReleases[0].code], debianShared(debP))
 	w.debianWorld(debianWorldReleases, dadv)
 	var series []ubSeries
 	uadv := map[string][]adv{}
 	for _, s := range h.fx.UbuntuSeries {
 		series = append(series, ubSeries{version: s[0], name: s[1], active: true})
-		uadv[s[0]] = advPair(ubP, "ubuntu-"+s[0], false)
+		uadv[s[0]] = advSet("ubuntu", ubP, "ubuntu-"+s[0], false)
 	}
 	w.ubuntuWorld(series, uadv)
 	// the rpm-based distributions: feeds for every release with a fixture image
 	rpmP := h.genPair("rpm")
 	padv := map[string][]adv{}
 	for _, rel := range []string{"photon1", "photon2", "photon3"} {
-		padv[rel] = advPair(rpmP, "photon-"+rel, false)
+		padv[rel] = advSet("photon", rpmP, "photon-"+rel, false)
 	}
 	w.photonWorld(padv)
 	sfiles := map[string][]adv{}
 	for _, n := range []string{"11", "12", "15", "77"} {
-		sfiles["suse.linux.enterprise.server."+n+".xml.gz"] = advPair(rpmP, "suse-"+n, false)
+		sfiles["suse.linux.enterprise.server."+n+".xml.gz"] = advSet("suse", rpmP, "suse-"+n, false)
 	}
 	for _, n := range []string{"15.5", "15.6", "15.10"} {
-		sfiles["opensuse.leap."+n+".xml.gz"] = advPair(rpmP, "leap-"+n, false)
+		sfiles["opensuse.leap."+n+".xml.gz"] = advSet("suse", rpmP, "leap-"+n, false)
 	}
 	w.suseWorld(sfiles)
-	w.awsWorld(map[string][]adv{"AL1": advPair(rpmP, "aws-AL1", false), "AL2": advPair(rpmP, "aws-AL2", false), "AL2023": advPair(rpmP, "aws-AL2023", false)})
+	w.awsWorld(map[string][]adv{"AL1": advSet("aws", rpmP, "aws-AL1", false), "AL2": advSet("aws", rpmP, "aws-AL2", false), "AL2023": advSet("aws", rpmP, "aws-AL2023", false)})
 	var oadvs []adv
 	for _, n := range []string{"5", "6", "7", "8", "9"} {
-		for _, a := range advPair(rpmP, "oracle-"+n, false) {
+		for _, a := range advSet("oracle", rpmP, "oracle-"+n, false) {
 			a.plats = []string{"Oracle Linux " + n}
 			oadvs = append(oadvs, a)
 		}
 	}
 	// a definition that names two releases reaches both
-	oadvs = append(oadvs, adv{pkg: rpmP.vulnBin, fixed: rpmP.fixIn, id: "ADV-oracle-7+8-vuln", plats: []string{"Oracle Linux 7", "Oracle Linux 8"}})
+	oadvs = append(oadvs, adv{pkg: rpmP.vulnBin, fixed: rpmP.fixIn, id: "ADV-oracle-7+8", plats: []string{"Oracle Linux 7", "Oracle Linux 8"}})
 	thisYear := time.Now().Year()
 	oracleCfgs := w.oracleYearsWorld(map[int][]adv{2024: oadvs}, 2007, thisYear)
 	exe, _ := os.Executable()
@@ -325,6 +319,8 @@ func (h *harness) sectionFull() {
 	}
 	oadv := map[string][]osvAdv{
 		"PyPI": {{id: "ADV-pypi-vuln", ecosystem: "PyPI", name: pyP.vulnBin, purl: "pkg:pypi/x", rangeType: "ECOSYSTEM", intro: "0", fixed: pyP.fixIn},
+			// an advisory with two `affected` entries: another package first
+			{id: "ADV-pypi-multi", ecosystem: "PyPI", name: pyP.vulnBin, purl: "pkg:pypi/x", rangeType: "ECOSYSTEM", intro: "0", fixed: pyP.fixIn, before: []advPkg{{"aaa-verif-other", pyP.fixIn}}},
 			{id: "ADV-pypi-fixed", ecosystem: "PyPI", name: pyP.fixedBin, purl: "pkg:pypi/y", rangeType: "ECOSYSTEM", intro: "0", fixed: pyP.fixIn}},
 		"RubyGems": {{id: "ADV-gem-vuln", ecosystem: "RubyGems", name: rbP.vulnBin, purl: "pkg:gem/x", rangeType: "ECOSYSTEM", intro: "0", fixed: rbP.fixIn},
 			{id: "ADV-gem-fixed", ecosystem: "RubyGems", name: rbP.fixedBin, purl: "pkg:gem/y", rangeType: "ECOSYSTEM", intro: "0", fixed: rbP.fixIn}},
@@ -403,6 +399,10 @@ func (h *harness) sectionFull() {
 	scanN = func(eco, rel string, p pkgPair, wants []string, layers ...map[string][]byte) {
 		if r.Stop() {
 			return
+		}
+		wants = expandWants(wants)
+		if eco == "debian" && rel == strconv.Itoa(debianWorldReleases[0].major) {
+			wants = append(wants, "ADV-debian-shared")
 		}
 		sort.Strings(wants)
 		want := strings.Join(wants, " ")
@@ -542,11 +542,11 @@ func (h *harness) sectionFull() {
 			if im.eco == "oracle" {
 				for _, e := range h.fx.Expected["oracle"] {
 					if e[1] == im.rel && (e[0] == "7" || e[0] == "8") {
-						want = append(want, "ADV-oracle-7+8-vuln")
+						want = append(want, "ADV-oracle-7+8")
 					}
 				}
 				if im.rel == "generated:7" || im.rel == "generated:8" {
-					want = append(want, "ADV-oracle-7+8-vuln")
+					want = append(want, "ADV-oracle-7+8")
 				}
 			}
 			base := map[string][]byte{im.path: []byte(im.content)}
@@ -561,7 +561,7 @@ func (h *harness) sectionFull() {
 	meta := func(n, v string) []byte {
 		return []byte("Metadata-Version: 2.1\nName: " + n + "\nVersion: " + v + "\nSummary: generated\n\nbody\n")
 	}
-	scan("python", "pypi", pyP, "ADV-pypi-vuln", map[string][]byte{
+	scanN("python", "pypi", pyP, []string{"ADV-pypi-vuln", "ADV-pypi-multi"}, map[string][]byte{
 		"usr/local/lib/python3.11/site-packages/" + pyP.vulnBin + "-" + pyP.vulnVer + ".dist-info/METADATA":   meta(pyP.vulnBin, pyP.vulnVer),
 		"usr/local/lib/python3.11/site-packages/" + pyP.fixedBin + "-" + pyP.fixedVer + ".dist-info/METADATA": meta(pyP.fixedBin, pyP.fixedVer)})
 	spec := func(n, v string) []byte {
